@@ -1107,6 +1107,9 @@ func (f *Frugal) validate() error {
 	if err := f.validateScopes(f.ParsedIncludes); err != nil {
 		return err
 	}
+	if err := f.validateValues(); err != nil {
+		return err
+	}
 	return nil
 }
 
@@ -1149,12 +1152,21 @@ func (f *Frugal) validateConstant(constant *Constant) error {
 
 	identifier, ok := constant.Value.(Identifier)
 	if !ok {
-		// Just a value, which is fine
+		// Just a value: validateValues checks it against the type once the
+		// types of this file have been validated
 		return nil
 	}
 
 	// The value of a constant is the name of another constant,
 	// make sure it exists
+	_, err := f.findIdentifier(identifier)
+	return err
+}
+
+// findIdentifier returns what the given identifier names in this file: a
+// constant or an enum value of this file or of an include. The error is the
+// diagnostic for an identifier which names nothing.
+func (f *Frugal) findIdentifier(identifier Identifier) (*IdentifierContext, error) {
 	name := string(identifier)
 
 	// split based on '.', if present, it should be from an include
@@ -1163,14 +1175,14 @@ func (f *Frugal) validateConstant(constant *Constant) error {
 		// From this file
 		for _, c := range f.Constants {
 			if name == c.Name {
-				return nil
+				return &IdentifierContext{Type: LocalConstant, Constant: c}, nil
 			}
 		}
-		return fmt.Errorf("Referenced constant %s not found", name)
+		return nil, fmt.Errorf("Referenced constant %s not found", name)
 	} else if len(pieces) == 2 {
 		// A value of an enum of this file
-		if f.hasEnumValue(pieces[0], pieces[1]) {
-			return nil
+		if enum, value := f.findEnumValue(pieces[0], pieces[1]); value != nil {
+			return &IdentifierContext{Type: LocalEnum, Enum: enum, EnumValue: value}, nil
 		}
 
 		// From an include
@@ -1180,39 +1192,296 @@ func (f *Frugal) validateConstant(constant *Constant) error {
 		if includeName != "" {
 			frugalInclude, ok := f.ParsedIncludes[includeName]
 			if !ok {
-				return fmt.Errorf("Include %s not found", includeName)
+				return nil, fmt.Errorf("Include %s not found", includeName)
 			}
 			frugal = frugalInclude
 		}
 		for _, c := range frugal.Constants {
 			if paramName == c.Name {
-				return nil
+				return &IdentifierContext{Type: IncludeConstant, Constant: c, Include: frugal}, nil
 			}
 		}
-		return fmt.Errorf("Referenced constant %s from include %s not found",
+		return nil, fmt.Errorf("Referenced constant %s from include %s not found",
 			paramName, includeName)
 	} else if len(pieces) == 3 {
 		// A value of an enum of an include
-		if include, ok := f.ParsedIncludes[pieces[0]]; ok && include.hasEnumValue(pieces[1], pieces[2]) {
-			return nil
+		if include, ok := f.ParsedIncludes[pieces[0]]; ok {
+			if enum, value := include.findEnumValue(pieces[1], pieces[2]); value != nil {
+				return &IdentifierContext{Type: IncludeEnum, Enum: enum, EnumValue: value, Include: include}, nil
+			}
 		}
 	}
 
-	return fmt.Errorf("Invalid constant name %s", name)
+	return nil, fmt.Errorf("Invalid constant name %s", name)
 }
 
-// hasEnumValue indicates if this file defines the enum with the given value.
-func (f *Frugal) hasEnumValue(enumName, valueName string) bool {
+// findEnumValue returns the enum of this file with the given name which
+// defines the given value, and that value.
+func (f *Frugal) findEnumValue(enumName, valueName string) (*Enum, *EnumValue) {
 	for _, enum := range f.Enums {
 		if enumName == enum.Name {
 			for _, value := range enum.Values {
 				if valueName == value.Name {
-					return true
+					return enum, value
 				}
 			}
 		}
 	}
-	return false
+	return nil, nil
+}
+
+// validateValues checks that the value of every constant and the default
+// value of every field and argument conforms to the type it is declared with.
+// It runs once the types of this file have been validated (every name
+// resolves, every typedef chain ends); the generators rely on it when they
+// write the values out.
+func (f *Frugal) validateValues() error {
+	for _, constant := range f.Constants {
+		if err := f.validateValue(f, constant.Type, constant.Value, "constant "+constant.Name); err != nil {
+			return err
+		}
+	}
+	for _, structs := range [][]*Struct{f.Structs, f.Unions, f.Exceptions} {
+		for _, s := range structs {
+			if err := f.validateDefaults(s.Fields, "struct "+s.Name); err != nil {
+				return err
+			}
+		}
+	}
+	for _, service := range f.Services {
+		for _, method := range service.Methods {
+			where := fmt.Sprintf("method %s.%s", service.Name, method.Name)
+			if err := f.validateDefaults(method.Arguments, where); err != nil {
+				return err
+			}
+			if err := f.validateDefaults(method.Exceptions, where); err != nil {
+				return err
+			}
+		}
+	}
+	return nil
+}
+
+func (f *Frugal) validateDefaults(fields []*Field, where string) error {
+	for _, field := range fields {
+		if field.Default == nil {
+			continue
+		}
+		what := fmt.Sprintf("field %s of %s", field.Name, where)
+		if err := f.validateValue(f, field.Type, field.Default, what); err != nil {
+			return err
+		}
+	}
+	return nil
+}
+
+// validateValue checks that a value written in this file conforms to the type
+// t, which is read in the given scope (this file, or the included file which
+// declares the typedef or the struct the type comes from): a literal of the
+// kind of the base type (integers within the range of the type), a list
+// literal of conforming elements for a list or a set, a map literal of
+// conforming keys and values for a map, a map literal from names to values
+// which conform to the field of that name for a struct, a declared number for
+// an enum; an identifier
+// names a constant declared with a type of the same kind, or a value of the
+// enum.
+func (f *Frugal) validateValue(scope *Frugal, t *Type, value interface{}, what string) error {
+	scope, t = underlyingScopedType(scope, t)
+	mismatch := func() error {
+		return fmt.Errorf("Invalid value for %s: expected %s, got %s", what, t.String(), describeValue(value))
+	}
+
+	switch v := value.(type) {
+	case Identifier:
+		ctx, err := f.findIdentifier(v)
+		if err != nil {
+			return err
+		}
+		if ctx.Constant != nil {
+			declaring := f
+			if ctx.Include != nil {
+				declaring = ctx.Include
+			}
+			expected := valueKind(scope, t)
+			declared := valueKind(underlyingScopedType(declaring, ctx.Constant.Type))
+			if expected == declared || (expected == "double" && declared == "integer") {
+				return nil
+			}
+			return mismatch()
+		}
+		enum := findEnum(scope, t)
+		if enum == nil || enum.Name != ctx.Enum.Name {
+			return mismatch()
+		}
+		for _, enumValue := range enum.Values {
+			if enumValue.Name == ctx.EnumValue.Name {
+				return nil
+			}
+		}
+		return mismatch()
+	case string:
+		if t.Name == "string" || t.Name == "binary" {
+			return nil
+		}
+	case bool:
+		if t.Name == "bool" {
+			return nil
+		}
+	case float64:
+		if t.Name == "double" {
+			return nil
+		}
+	case int64:
+		switch t.Name {
+		case "i8", "byte":
+			if -1<<7 <= v && v < 1<<7 {
+				return nil
+			}
+		case "i16":
+			if -1<<15 <= v && v < 1<<15 {
+				return nil
+			}
+		case "i32":
+			if -1<<31 <= v && v < 1<<31 {
+				return nil
+			}
+		case "i64", "double":
+			return nil
+		default:
+			if enum := findEnum(scope, t); enum != nil {
+				for _, enumValue := range enum.Values {
+					if int64(enumValue.Value) == v {
+						return nil
+					}
+				}
+			}
+		}
+	case []interface{}:
+		if t.Name == "list" || t.Name == "set" {
+			for _, element := range v {
+				if err := f.validateValue(scope, t.ValueType, element, what); err != nil {
+					return err
+				}
+			}
+			return nil
+		}
+	case []KeyValue:
+		if t.Name == "map" {
+			for _, pair := range v {
+				if err := f.validateValue(scope, t.KeyType, pair.Key, what); err != nil {
+					return err
+				}
+				if err := f.validateValue(scope, t.ValueType, pair.Value, what); err != nil {
+					return err
+				}
+			}
+			return nil
+		}
+		declaring, s := findStructLike(scope, t)
+		if s == nil {
+			return mismatch()
+		}
+		for _, pair := range v {
+			var name string
+			switch key := pair.Key.(type) {
+			case string:
+				name = key
+			case Identifier:
+				name = string(key)
+			default:
+				return fmt.Errorf("Invalid value for %s: expected a field name of %s, got %s",
+					what, t.String(), describeValue(pair.Key))
+			}
+			// A name which is not a field of the struct is left out by the
+			// generators
+			for _, field := range s.Fields {
+				if field.Name == name {
+					if err := f.validateValue(declaring, field.Type, pair.Value, what); err != nil {
+						return err
+					}
+				}
+			}
+		}
+		return nil
+	}
+	return mismatch()
+}
+
+// describeValue names the kind of a constant value for a diagnostic.
+func describeValue(value interface{}) string {
+	switch v := value.(type) {
+	case Identifier:
+		return "identifier " + string(v)
+	case string:
+		return "a string"
+	case bool:
+		return "a bool"
+	case int64:
+		return fmt.Sprintf("integer %d", v)
+	case float64:
+		return "a double"
+	case []interface{}:
+		return "a list"
+	case []KeyValue:
+		return "a map"
+	}
+	return "no value"
+}
+
+// valueKind names the kind of values of a type without typedefs, read in the
+// given scope, as far as a reference to a constant is checked: the integer
+// types are one kind (so are string and binary), a container is its name, an
+// enum or a struct is its name without the include.
+func valueKind(scope *Frugal, t *Type) string {
+	switch t.Name {
+	case "i8", "byte", "i16", "i32", "i64":
+		return "integer"
+	case "string", "binary":
+		return "string"
+	case "bool", "double", "list", "set", "map":
+		return t.Name
+	}
+	if findEnum(scope, t) != nil {
+		return "enum " + t.ParamName()
+	}
+	return "struct " + t.ParamName()
+}
+
+// declaringFile returns the file which declares the named type t read in the
+// given scope: the include the name is prefixed with, if any (nil if there is
+// no such include).
+func declaringFile(scope *Frugal, t *Type) *Frugal {
+	if include := t.IncludeName(); include != "" {
+		return scope.ParsedIncludes[include]
+	}
+	return scope
+}
+
+// findEnum returns the enum the type t, read in the given scope, names.
+func findEnum(scope *Frugal, t *Type) *Enum {
+	if declaring := declaringFile(scope, t); declaring != nil {
+		for _, enum := range declaring.Enums {
+			if enum.Name == t.ParamName() {
+				return enum
+			}
+		}
+	}
+	return nil
+}
+
+// findStructLike returns the struct, union or exception the type t, read in
+// the given scope, names, and the file which declares it.
+func findStructLike(scope *Frugal, t *Type) (*Frugal, *Struct) {
+	if declaring := declaringFile(scope, t); declaring != nil {
+		for _, structs := range [][]*Struct{declaring.Structs, declaring.Unions, declaring.Exceptions} {
+			for _, s := range structs {
+				if s.Name == t.ParamName() {
+					return declaring, s
+				}
+			}
+		}
+	}
+	return nil, nil
 }
 
 func (f *Frugal) validateTypedefs() error {
